@@ -104,6 +104,23 @@ def extraction(ctx, case):
             # the offset cache is warm from an earlier, different closure
             other = gdbworld.build_closure(gdb, gdbworld.Closure('other', 'o', [{'code': 'o', 'id': 5, 'type': 'wl_x'}], None, 9))
             extract.extract_message(other, wl.UnresolvedObject(9, None), True, False)
+        if ctx.choose([False, True], 'earlier_lookalike') if any(c in 'on' for c in codes) else False:
+            # an earlier message of ANOTHER interface with the same message name and signature (e.g. wl_data_device.selection vs
+            # zwp_primary_selection_device_v1.selection): what is reported for this closure must not depend on it
+            import copy
+            args2 = []
+            for a in args:
+                b = dict(a)
+                if 'type' in b:
+                    b['type'] = 'zz_other_iface' if b['type'] is None else None
+                for key in ('value', 'id', 'proxy_id'):
+                    if key in b and not isinstance(b[key], (str, type(None))):
+                        b[key] = 77
+                if 'elems' in b:
+                    b['elems'] = [1] * len(b['elems'])
+                args2.append(b)
+            look = gdbworld.build_closure(gdb, gdbworld.Closure('do_it', sig, args2, None, 5, 'zz_iface'))
+            extract.extract_message(look, wl.UnresolvedObject(5, None), True, False)
         if mode == 'sent':
             gdb._State.frame = gdbworld.frames_sent(gdb, clo, conn_addr)
             conn_id, msg = extract.sent_message()
